@@ -11,6 +11,7 @@ import CaddyModel.C18.Http
 import CaddyModel.C18.Preserve
 import CaddyModel.C18.Rewrite
 import CaddyModel.C18.Consumers
+import CaddyModel.C18.CallSites
 import CaddyModel.Gen.Consts
 
 namespace CaddyModel.C18
